@@ -109,7 +109,7 @@ def probes(syn, key, val):
         for w in keywords(c[2]):
             want = c[1] + between + w + after
             for form in (key + ':' + w, key + '-' + w, key + ':' + w.upper(), key + ':' + w.capitalize(), key + '-' + w.upper()):
-                yield 'keyword', form, {}, eq_nocase(want, 'keyword-not-resolved')
+                yield 'keyword', form, {}, eq(want, 'keyword-not-resolved')
     # the violation class names the key, so that a known finding about one key never hides another key
     yield 'override', key, {'snippets': {key: 'foo-prop:bar'}}, eq('foo-prop' + between + 'bar' + after, 'user-override-ignored:key=' + key)
     yield 'override-raw', key, {'snippets': {key: 'raw ${1:body} text'}}, eq('raw body text', 'user-override-ignored:key=' + key)
